@@ -16,6 +16,16 @@ from .. import oracle_marker as OM
 from ..mpools import CaseTimeout, atoms, environments, time_limit
 from ..pools import Rng
 
+# pairs of operations whose *merged* specifiers are equal as sets but spelled differently (X.Y vs X.Y.0): results computed by the
+# library (not just parsed) must not leak from one to the other through a cache
+MERGE_TWINS = [
+    (("and", ("parse", 'python_version >= "3.8"'), ("parse", 'python_version <= "3.8"')), ("and", ("parse", 'python_version >= "3.8.0"'), ("parse", 'python_version <= "3.8.0"'))),
+    (("and", ("parse", 'python_version >= "3.8.0"'), ("parse", 'python_version < "4.0"')), ("and", ("parse", 'python_version >= "3.8"'), ("parse", 'python_version < "4.0"'))),
+    (("or", ("parse", 'platform_release < "5.10"'), ("parse", 'platform_release > "5.10"')), ("or", ("parse", 'platform_release < "5.10.0"'), ("parse", 'platform_release > "5.10.0"'))),
+    (("and", ("parse", 'python_full_version >= "3.8"'), ("parse", 'python_full_version < "3.9"')), ("and", ("parse", 'python_full_version >= "3.8.0"'), ("parse", 'python_full_version < "3.9.0"'))),
+    (("or", ("parse", 'python_full_version < "3.6"'), ("parse", 'python_full_version >= "3.7"')), ("or", ("parse", 'python_full_version < "3.6.0"'), ("parse", 'python_full_version >= "3.7.0"'))),
+    (("and", ("parse", 'os_name == "a" or os_name == "b"'), ("parse", 'sys_platform == "x"')), ("and", ("parse", 'os_name == "b" or os_name == "a"'), ("parse", 'sys_platform == "x"'))),
+]
 TWINS = [('python_version >= "3.8"', '"3.8" <= python_version'), ('python_version >= "3.10"', 'python_version >= "3.10.0"'),
          ('python_full_version >= "3.10"', 'python_full_version >= "3.10.0"'), ('os_name == "nt"', '"nt" == os_name'),
          ('sys_platform in "linux"', '"linux" in sys_platform'), ('python_version < "3.9"', '"3.9" > python_version'),
@@ -23,8 +33,24 @@ TWINS = [('python_version >= "3.8"', '"3.8" <= python_version'), ('python_versio
 
 
 def clear():
-    for f in (parse_marker, _merge_single_markers, cnf, dnf):
-        f.cache_clear()
+    """clears every functools cache found in the library's modules (not a fixed list: a newly memoised function is cleared too)"""
+    import sys
+    for name, mod in list(sys.modules.items()):
+        if name == "dep_logic" or name.startswith("dep_logic."):
+            for obj in list(vars(mod).values()):
+                _clear(obj)
+                if isinstance(obj, type):
+                    for attr in list(vars(obj).values()):
+                        _clear(getattr(attr, "__func__", attr))
+
+
+def _clear(f):
+    cc = getattr(f, "cache_clear", None)
+    if callable(cc):
+        try:
+            cc()
+        except Exception:  # noqa: BLE001
+            pass
 
 
 def build(e):
@@ -60,7 +86,26 @@ def run(tier="quick", seed=0, arg=None):
     fails, evals, distinct, timeouts, samples = [], 0, 0, 0, []
     nprobe = 120 if tier == "quick" else 800
     fresh_checked = 0
-    for i in range(nprobe):
+    for i in range(nprobe + 2 * len(MERGE_TWINS)):
+        if i >= nprobe:
+            j = i - nprobe
+            first, second = MERGE_TWINS[j // 2] if j % 2 == 0 else tuple(reversed(MERGE_TWINS[j // 2]))
+            probe, history = second, [first]
+            try:
+                clear()
+                cold = observe(probe, envs)
+                clear()
+                build(history[0])
+                warm = observe(probe, envs)
+                evals += 1
+                distinct += 1
+                if warm[0] != cold[0]:
+                    fails.append({"check": "C10.text", "input": {"probe": probe, "history": history}, "observed": warm[0], "expected": cold[0]})
+                elif warm[1] != cold[1]:
+                    fails.append({"check": "C10.meaning", "input": {"probe": probe, "history": history}, "observed": warm[0], "expected": cold[0]})
+            except Exception as e:  # noqa: BLE001
+                fails.append({"check": "C10.raises", "input": {"probe": probe, "history": history}, "observed": repr(e), "expected": "no exception"})
+            continue
         # probes built around twins so that key-equal-but-differently-built operands occur
         tw = rng.choice(TWINS)
         shape = rng.randrange(4)
